@@ -883,6 +883,10 @@ func sectionOf(kind string, id int, g *gen, chunks []string) verifh.Section {
 	for _, c := range chunks {
 		h = h*31 + len(c)
 	}
+	// round 5e: after this source (valid or not) a fixed valid program must format as always (state between calls)
+	if h%3 == 0 || kind == "edge" {
+		s.Ops = append(s.Ops, "seq")
+	}
 	if h%5 == 0 {
 		s.Ops = append(s.Ops, "again")
 	}
@@ -895,10 +899,6 @@ func sectionOf(kind string, id int, g *gen, chunks []string) verifh.Section {
 	// round 5c: a failing writer, concurrent calls, format.File on a name that cannot be read
 	if h%7 == 3 {
 		s.Ops = append(s.Ops, "wrerr")
-	}
-	// round 5e: after this source (valid or not) a fixed valid program must format as always (state between calls)
-	if h%3 == 0 || kind == "edge" {
-		s.Ops = append(s.Ops, "seq")
 	}
 	if h%13 == 4 {
 		s.Ops = append(s.Ops, "par")
